@@ -54,14 +54,46 @@ var assumeCommon = []string{
 	"operands and contexts are well-formed as stated in the property's quantifier; everything outside the stated bounds is not claimed",
 }
 
-func roundInstances(tier string, extra map[string]string) []Instance {
-	K, W := 5, 8
-	if tier == "thorough" {
-		K, W = 9, 14
-	}
+func inst(h string, w int, base map[string]string, kv ...interface{}) Instance {
+	return Instance{Harness: h, Params: merge(base, p(kv...)), Weight: w}
+}
+
+// arithInstances: the single-rounding operations. Round carries all nine mode instances
+// (the rounding decision is shared code); the other operations run under a representative
+// subset in the quick tier and under all modes in the thorough tier.
+func arithInstances(tier string, traps string) []Instance {
 	var out []Instance
+	quick := tier != "thorough"
+	base := p("Pmin", 1, "regime", 0, "traps", traps)
+	someModes := []string{"half_even", "floor", "up"}
+	quoModes := []string{"half_even", "half_down", "ceiling", "05up"}
+	if !quick {
+		someModes, quoModes = allModes, allModes
+	}
+	if quick {
+		for _, m := range allModes {
+			out = append(out, inst("VerifRound", 6, base, "mode", m, "K", 5, "W", 7))
+		}
+		for _, m := range someModes {
+			out = append(out, inst("VerifAdd", 9, base, "mode", m, "K", 2, "W", 2, "sub", 0))
+			out = append(out, inst("VerifAdd", 9, base, "mode", m, "K", 2, "W", 2, "sub", 1))
+			out = append(out, inst("VerifMul", 4, base, "mode", m, "K", 3, "W", 3))
+			out = append(out, inst("VerifAbsNeg", 1, base, "mode", m, "K", 4, "W", 5, "op", "abs"))
+			out = append(out, inst("VerifAbsNeg", 1, base, "mode", m, "K", 4, "W", 5, "op", "neg"))
+		}
+		for _, m := range quoModes {
+			out = append(out, inst("VerifQuo", 10, base, "mode", m, "K", 3, "Kd", 1, "W", 3))
+		}
+		return out
+	}
 	for _, m := range allModes {
-		out = append(out, Instance{Harness: "VerifRound", Params: merge(p("mode", m, "K", K, "W", W, "Pmin", 1, "regime", 0), extra), Weight: K})
+		out = append(out, inst("VerifRound", 8, base, "mode", m, "K", 9, "W", 12))
+		out = append(out, inst("VerifAdd", 9, base, "mode", m, "K", 3, "W", 4, "sub", 0))
+		out = append(out, inst("VerifAdd", 9, base, "mode", m, "K", 3, "W", 4, "sub", 1))
+		out = append(out, inst("VerifMul", 5, base, "mode", m, "K", 5, "W", 6))
+		out = append(out, inst("VerifAbsNeg", 1, base, "mode", m, "K", 7, "W", 10, "op", "abs"))
+		out = append(out, inst("VerifAbsNeg", 1, base, "mode", m, "K", 7, "W", 10, "op", "neg"))
+		out = append(out, inst("VerifQuo", 12, base, "mode", m, "K", 4, "Kd", 2, "W", 3))
 	}
 	return out
 }
@@ -70,22 +102,95 @@ var checkDefs = map[string]*CheckDef{}
 
 func init() {
 	boundsArith := map[string]interface{}{
-		"quick":    map[string]interface{}{"coefficient_digits_K": 5, "precision": "1..K", "exponent_window_W": 8, "Emin": "[-W,0]", "Emax": "[0,W]", "modes": "8 + empty default", "trap_sets": "all 2^32 (symbolic)"},
-		"thorough": map[string]interface{}{"coefficient_digits_K": 9, "precision": "1..K", "exponent_window_W": 14, "Emin": "[-W,0]", "Emax": "[0,W]", "modes": "8 + empty default", "trap_sets": "all 2^32 (symbolic)"},
+		"quick": map[string]interface{}{"Round": "K=5 digits, W=7 (operand exponent in [-W,W]; Emin in [-W,0], Emax in [0,W]), 9 modes",
+			"Add/Sub": "K=2, W=2, modes half_even/floor/up", "Mul": "K=3, W=3, same modes", "Abs/Neg": "K=4, W=5",
+			"Quo":       "dividend K=3 digits, divisor coefficient enumerated 1..9 (Kd=1), W=3, modes half_even/half_down/ceiling/05up",
+			"precision": "1..K (each value)", "trap_sets": "Traps=0 (C01/C02/C07); all 2^32 trap words symbolic (C03)"},
+		"thorough": map[string]interface{}{"Round": "K=9, W=12, 9 modes", "Add/Sub": "K=3, W=4, 9 modes", "Mul": "K=5, W=6, 9 modes", "Abs/Neg": "K=7, W=10",
+			"Quo": "dividend K=4, divisor coefficient enumerated 1..99 (Kd=2), W=3, 9 modes", "precision": "1..K"},
 	}
-	outsideArith := []string{"coefficients with more than K digits", "exponents outside the stated windows", "iterative functions (Sqrt, Cbrt, Exp, Ln, Log10, Pow): see not_applicable / per-property notes"}
+	outsideArith := []string{"coefficients with more than K digits", "exponents outside the stated windows (in particular the package limits +-100000: regimes 1/2 are thorough-only where listed)",
+		"divisor coefficients beyond Kd digits (symbolic-by-symbolic division is enumerated over the divisor, not solved)",
+		"Precision 0 except where an instance says Pmin=0", "context-aware parsing (covered with the parser in C14/C13)",
+		"iterative functions (Sqrt, Cbrt, Exp, Ln, Log10, Pow): see not_applicable / per-property notes"}
 
 	checkDefs["C01"] = &CheckDef{Prop: "C01", Enable: []string{"C01."},
-		Instances:  func(tier string) []Instance { return roundInstances(tier, nil) },
-		PathModels: true, Stubs: stubsLevelA, Bounds: boundsArith, Outside: outsideArith, Assumptions: assumeCommon,
-		RequireCovers: []string{"round.subnormal", "round.overflow", "round.inexact"}}
+		Instances:  func(tier string) []Instance { return arithInstances(tier, "zero") },
+		PathModels: true, PathModelSample: 40, Stubs: stubsLevelA, Bounds: boundsArith, Outside: outsideArith, Assumptions: assumeCommon,
+		RequireCovers: []string{"round.subnormal", "round.overflow", "round.inexact", "add.subnormal", "mul.overflow", "quo.subnormal", "quo.inexact"}}
 	checkDefs["C02"] = &CheckDef{Prop: "C02", Enable: []string{"C02."},
-		Instances:  func(tier string) []Instance { return roundInstances(tier, nil) },
-		PathModels: true, Stubs: stubsLevelA, Bounds: boundsArith, Outside: outsideArith, Assumptions: assumeCommon}
-	checkDefs["C03"] = &CheckDef{Prop: "C03", Enable: []string{"C03."},
-		Instances:  func(tier string) []Instance { return roundInstances(tier, nil) },
-		PathModels: true, Stubs: stubsLevelA, Bounds: boundsArith, Outside: outsideArith, Assumptions: assumeCommon}
+		Instances: func(tier string) []Instance {
+			return append(arithInstances(tier, "zero"), divIntInstances(tier, "zero")...)
+		},
+		PathModels: true, PathModelSample: 40, Stubs: stubsLevelA, Bounds: boundsArith, Outside: outsideArith, Assumptions: assumeCommon}
 	checkDefs["C07"] = &CheckDef{Prop: "C07", Enable: []string{"C07."},
-		Instances:  func(tier string) []Instance { return roundInstances(tier, nil) },
-		PathModels: true, Stubs: stubsLevelA, Bounds: boundsArith, Outside: outsideArith, Assumptions: assumeCommon}
+		Instances: func(tier string) []Instance {
+			return append(append(arithInstances(tier, "zero"), divIntInstances(tier, "zero")...), quantizeInstances(tier, "zero")...)
+		},
+		PathModels: true, PathModelSample: 40, Stubs: stubsLevelA, Bounds: boundsArith, Outside: outsideArith, Assumptions: assumeCommon}
+	checkDefs["C03"] = &CheckDef{Prop: "C03", Enable: []string{"C03."},
+		Instances: func(tier string) []Instance {
+			return append(append(arithInstances(tier, "sym"), divIntInstances(tier, "sym")...), quantizeInstances(tier, "sym")...)
+		},
+		PathModels: true, PathModelSample: 40, Stubs: stubsLevelA, Bounds: boundsArith, Outside: outsideArith, Assumptions: assumeCommon}
+	checkDefs["C09"] = &CheckDef{Prop: "C09", Enable: []string{"C09."},
+		Instances:  func(tier string) []Instance { return quantizeInstances(tier, "zero") },
+		PathModels: true, PathModelSample: 40, Stubs: stubsLevelA, Assumptions: assumeCommon,
+		Bounds:        map[string]interface{}{"quick": "x: K=3 digits, W=3; target exponent in [-W-4, W+4]; 9 modes for Quantize, 4 modes for RoundToIntegral*/Ceil/Floor", "thorough": "K=6, W=6, 9 modes"},
+		Outside:       []string{"more digits / wider exponent windows", "Ceil/Floor results that needed rounding to the precision (property restricts them to integer parts that fit)"},
+		RequireCovers: []string{"quantize.drop", "quantize.exact", "quantize.nan", "rti_exact.drop"}}
+	checkDefs["C10"] = &CheckDef{Prop: "C10", Enable: []string{"C10."},
+		Instances:  func(tier string) []Instance { return divIntInstances(tier, "zero") },
+		PathModels: true, PathModelSample: 40, Stubs: stubsLevelA, Assumptions: assumeCommon,
+		Bounds:        map[string]interface{}{"quick": "dividend K=3 digits, divisor coefficient enumerated 1..9, W=2 (exponent gap up to 4), modes half_even/floor/up", "thorough": "K=4, divisor 1..99, W=3, 9 modes"},
+		Outside:       []string{"divisor coefficients above Kd digits", "exponent gaps beyond 2W (the upscale error path for gaps > 100000 is not exercised)"},
+		RequireCovers: []string{"quoint.finite", "quoint.impossible", "rem.rounded"}}
+	checkDefs["C15"] = &CheckDef{Prop: "C15", Enable: []string{"C15."},
+		Instances: func(tier string) []Instance {
+			K := 6
+			if tier == "thorough" {
+				K = 16
+			}
+			return []Instance{inst("VerifCmp", 2, p("K", K, "full", 1)), inst("VerifCmpTotal", 3, p("K", K, "full", 1))}
+		},
+		PathModels: true, PathModelSample: 150, Stubs: stubsLevelA, Assumptions: assumeCommon,
+		Bounds:        map[string]interface{}{"quick": "coefficients up to 6 digits, exponents over the full package range [-100000, 100000], all four forms and signs", "thorough": "16 digits"},
+		Outside:       []string{"coefficients with more digits", "transitivity of CmpTotal is not queried on triples: it follows from CmpTotal being equal to a comparison of keys in a totally ordered key space (asserted pairwise)"},
+		RequireCovers: []string{"cmp.finite", "cmp.infinf"}}
+}
+
+func divIntInstances(tier string, traps string) []Instance {
+	base := p("Pmin", 1, "regime", 0, "traps", traps)
+	var out []Instance
+	if tier != "thorough" {
+		for _, m := range []string{"half_even", "floor", "up"} {
+			out = append(out, inst("VerifDivInt", 10, base, "mode", m, "K", 3, "Kd", 1, "W", 2))
+		}
+		return out
+	}
+	for _, m := range allModes {
+		out = append(out, inst("VerifDivInt", 12, base, "mode", m, "K", 4, "Kd", 2, "W", 3))
+	}
+	return out
+}
+
+func quantizeInstances(tier string, traps string) []Instance {
+	base := p("Pmin", 1, "regime", 0, "traps", traps)
+	var out []Instance
+	K, W := 3, 3
+	modes := []string{"half_even", "floor", "up", "05up"}
+	if tier == "thorough" {
+		K, W = 6, 6
+		modes = allModes
+	}
+	for _, m := range allModes {
+		out = append(out, inst("VerifQuantize", 5, base, "mode", m, "K", K, "W", W, "op", "quantize"))
+	}
+	for _, m := range modes {
+		out = append(out, inst("VerifQuantize", 1, base, "mode", m, "K", K+1, "W", W+1, "op", "rti_exact"))
+		out = append(out, inst("VerifQuantize", 1, base, "mode", m, "K", K+1, "W", W+1, "op", "rti_value"))
+		out = append(out, inst("VerifCeilFloor", 1, base, "mode", m, "K", K+1, "W", W+1, "op", "ceil"))
+		out = append(out, inst("VerifCeilFloor", 1, base, "mode", m, "K", K+1, "W", W+1, "op", "floor"))
+	}
+	return out
 }
